@@ -371,8 +371,14 @@ class Interp:
                 if m is not None:
                     return lambda *a, _m=m, _b=base: self.call_function(_m, [_b, *a], {})
             raise Unsupported(f"attribute {P.un(e)}")
-        if isinstance(e, ast.Tuple):
-            return tuple(self.eval(x, env) for x in e.elts)
+        if isinstance(e, (ast.Tuple, ast.List)):
+            out = []
+            for x in e.elts:
+                if isinstance(x, ast.Starred):
+                    out.extend(self.iterate(self.eval(x.value, env)))
+                else:
+                    out.append(self.eval(x, env))
+            return tuple(out)
         if isinstance(e, ast.BoolOp):
             v = None
             for x in e.values:
